@@ -1396,16 +1396,19 @@ Section Effects.
   Lemma poll_call_eff s i r s' :
     poll_call s i = (r, s') -> Ch i s s' /\ pc_eff (ph s i) r (ph s' i).
   Proof.
-    unfold poll_call, pc_eff. unfold ph at 2. destruct (nth_error (calls s) i) as [k|] eqn:Hk; cbn [option_map].
-    2:{ intros [= <- <-]. split; [apply Ch_refl|]. split; [reflexivity|]. unfold ph. rewrite Hk. reflexivity. }
+    intro H. unfold poll_call in H. destruct (nth_error (calls s) i) as [k|] eqn:Hk.
+    2:{ injection H as <- <-. split; [apply Ch_refl|]. unfold pc_eff, ph. rewrite Hk. cbn.
+        split; reflexivity. }
     assert (Hs : ph s i <> None) by (unfold ph; rewrite Hk; discriminate).
     assert (Hsame : ph s i = Some (c_phase k)) by (unfold ph; rewrite Hk; reflexivity).
+    rewrite Hsame. unfold pc_eff.
     destruct (c_phase k) eqn:Hp.
     - (* PNew *)
-      cbn zeta. set (s0 := with_id _ i k (next_id s)). set (s1 := set_slot s0 (next_id s) slot0).
+      cbn zeta in H. set (s0 := with_id _ i k (next_id s)) in H.
+      set (s1 := set_slot s0 (next_id s) slot0) in H.
       assert (C1 : Ch i s s1).
-      { eapply Ch_trans; [apply Ch_eq; reflexivity|].
-        eapply Ch_trans; [apply (Ch_with_id i (upd_misc s _ (handles s) (now s)) k (next_id s)); exact Hk|].
+      { eapply Ch_trans; [apply (Ch_eq i s (upd_misc s (N.modulo (next_id s + 1) 18446744073709551616) (handles s) (now s))); reflexivity|].
+        eapply Ch_trans; [apply (Ch_with_id i _ k (next_id s)); exact Hk|].
         apply Ch_eq; reflexivity. }
       assert (P1 : ph s1 i <> None).
       { unfold s1. rewrite (ph_eq s0) by reflexivity. unfold s0. rewrite ph_with_id by exact Hk.
@@ -1413,42 +1416,296 @@ Section Effects.
       destruct (rx_closed s1).
       + destruct (fail_shutdown_eff s1 i (next_id s) P1) as (E1 & C2 & P2).
         destruct (fail_shutdown s1 i (next_id s)) as [r0 s2]. cbn [fst snd] in *. subst r0.
-        intros [= <- <-]. split; [eapply Ch_trans; eassumption|]. split; [left; reflexivity|exact P2].
+        injection H as <- <-. split; [eapply Ch_trans; eassumption|]. split; [left; reflexivity|exact P2].
       + destruct (permits s1) as [|pm].
-        * intros [= <- <-]. split.
+        * injection H as <- <-. split.
           -- eapply Ch_trans; [exact C1|]. eapply Ch_trans; [|apply Ch_set_phase]. apply Ch_eq; reflexivity.
           -- split; [left; reflexivity|left]. apply ph_set_phase_same.
              rewrite (ph_eq s1) by reflexivity. exact P1.
-        * intro E. apply enqueue_eff in E; [|rewrite (ph_eq s1) by reflexivity; exact P1].
-          destruct E as [C2 [[-> P2]|[[o ->] P2]]].
-          -- split; [eapply Ch_trans; [exact C1|]; eapply Ch_trans; [apply Ch_eq; reflexivity|exact C2]|].
+        * apply enqueue_eff in H; [|rewrite (ph_eq s1) by reflexivity; exact P1].
+          destruct H as [C2 [[-> P2]|[[o ->] P2]]].
+          -- split; [eapply Ch_trans; [exact C1|]; eapply (Ch_trans i s1 (upd_q s1 pm (queue s1) (waiters s1) false)); [apply Ch_eq; reflexivity|exact C2]|].
              split; [left; reflexivity|right; exact P2].
-          -- split; [eapply Ch_trans; [exact C1|]; eapply Ch_trans; [apply Ch_eq; reflexivity|exact C2]|].
+          -- split; [eapply Ch_trans; [exact C1|]; eapply (Ch_trans i s1 (upd_q s1 pm (queue s1) (waiters s1) false)); [apply Ch_eq; reflexivity|exact C2]|].
              split; [left; reflexivity|exact P2].
-    - intros [= <- <-]. split; [apply Ch_refl|]. split; [right; left; reflexivity|left; exact Hsame].
+    - injection H as <- <-. split; [apply Ch_refl|]. split; [right; left; reflexivity|left; exact Hsame].
     - (* PAssigned *)
       destruct (rx_closed s).
-      + set (s0 := upd_q s _ _ _ _).
+      + set (s0 := upd_q s _ _ _ _) in H.
         assert (P0 : ph s0 i <> None) by (rewrite (ph_eq s) by reflexivity; exact Hs).
         destruct (fail_shutdown_eff s0 i (c_id k) P0) as (E1 & C2 & P2).
         destruct (fail_shutdown s0 i (c_id k)) as [r0 s2]. cbn [fst snd] in *. subst r0.
-        intros [= <- <-]. split; [eapply Ch_trans; [apply Ch_eq; reflexivity|exact C2]|].
+        injection H as <- <-. split; [eapply (Ch_trans i s s0); [apply Ch_eq; reflexivity|exact C2]|].
         split; [right; left; reflexivity|exact P2].
-      + intro E. apply enqueue_eff in E; [|exact Hs].
-        destruct E as [C2 [[-> P2]|[[o ->] P2]]].
+      + apply enqueue_eff in H; [|exact Hs].
+        destruct H as [C2 [[-> P2]|[[o ->] P2]]].
         * split; [exact C2|]. split; [right; right; left; reflexivity|right; exact P2].
         * split; [exact C2|]. split; [right; left; reflexivity|exact P2].
     - (* PAcqClosed *)
       destruct (fail_shutdown_eff s i (c_id k) Hs) as (E1 & C2 & P2).
       destruct (fail_shutdown s i (c_id k)) as [r0 s2]. cbn [fst snd] in *. subst r0.
-      intros [= <- <-]. split; [exact C2|]. split; [right; right; left; reflexivity|exact P2].
+      injection H as <- <-. split; [exact C2|]. split; [right; right; left; reflexivity|exact P2].
     - (* PAwaiting *)
-      intro E. apply poll_slot_eff in E; [|exact Hs].
-      destruct E as [[-> ->]|([o ->] & C2 & P2)].
+      apply poll_slot_eff in H; [|exact Hs].
+      destruct H as [[-> ->]|([o ->] & C2 & P2)].
       + split; [apply Ch_refl|]. split; [right; right; right; reflexivity|right; exact Hsame].
       + split; [exact C2|]. split; [right; right; right; reflexivity|exact P2].
-    - intros [= <- <-]. split; [apply Ch_refl|]. split; [left; reflexivity|exact Hsame].
-    - intros [= <- <-]. split; [apply Ch_refl|]. split; [right; left; reflexivity|exact Hsame].
-    - intros [= <- <-]. split; [apply Ch_refl|]. split; [right; right; reflexivity|exact Hsame].
+    - injection H as <- <-. split; [apply Ch_refl|]. split; [left; reflexivity|exact Hsame].
+    - injection H as <- <-. split; [apply Ch_refl|]. split; [right; left; reflexivity|exact Hsame].
+    - injection H as <- <-. split; [apply Ch_refl|]. split; [right; right; reflexivity|exact Hsame].
   Qed.
+
+  Definition gc_phase (p : option phase) : option phase :=
+    match p with
+    | Some PNew => Some PGone
+    | Some PAcquiring | Some PAssigned | Some PAcqClosed | Some PAwaiting => Some PClosing
+    | x => x
+    end.
+
+  Lemma ph_release_permit s i :
+    winv s -> ph s i <> Some PAcquiring -> ph (release_permit s) i = ph s i.
+  Proof.
+    intros W Hi. destruct (release_permit_shape s W) as [(_ & Ec & _)|(w & ws & k & _ & Hk & Hp & Ec & _)].
+    - apply ph_eq, Ec.
+    - unfold ph. rewrite Ec, nth_error_phase_calls. destruct (Nat.eqb w i) eqn:E; [|reflexivity].
+      apply Nat.eqb_eq in E. subst w. exfalso. apply Hi. unfold ph. rewrite Hk. cbn. congruence.
+  Qed.
+
+  Lemma guard_close_eff s i :
+    winv s -> Ch i s (guard_close s i) /\ ph (guard_close s i) i = gc_phase (ph s i).
+  Proof.
+    intro W. unfold guard_close. unfold ph at 2.
+    destruct (nth_error (calls s) i) as [k|] eqn:Hk; cbn [option_map];
+      [|split; [apply Ch_refl|unfold ph; rewrite Hk; reflexivity]].
+    assert (Hs : ph s i <> None) by (unfold ph; rewrite Hk; discriminate).
+    assert (Hsame : ph s i = Some (c_phase k)) by (unfold ph; rewrite Hk; reflexivity).
+    destruct (c_phase k) eqn:Hp; cbn [gc_phase];
+      try (split; [apply Ch_refl|exact Hsame]).
+    - split; [apply Ch_set_phase|apply ph_set_phase_same, Hs].
+    - split.
+      + eapply Ch_trans; [|apply Ch_set_phase]. apply Ch_eq; reflexivity.
+      + apply ph_set_phase_same. rewrite (ph_eq s) by reflexivity. exact Hs.
+    - set (s1 := set_phase s i PClosing).
+      assert (W1 : winv s1).
+      { eapply winv_phase_other; [exact W|unfold s1; rewrite set_phase_alt; reflexivity
+                                 |unfold s1; rewrite set_phase_alt; reflexivity|].
+        eapply winv_not_acq; [exact W|exact Hk|congruence]. }
+      assert (P1 : ph s1 i = Some PClosing) by (apply ph_set_phase_same, Hs).
+      set (s2 := if rx_closed s1 then _ else _).
+      assert (C2 : Ch i s1 s2 /\ ph s2 i = Some PClosing).
+      { unfold s2. destruct (rx_closed s1).
+        - split; [apply Ch_eq; reflexivity|rewrite (ph_eq s1) by reflexivity; exact P1].
+        - split.
+          + apply Ch_cls; [apply cls_release_permit, W1|apply release_permit_other].
+          + rewrite ph_release_permit; [exact P1|exact W1|congruence]. }
+      destruct C2 as [C2 P2]. split.
+      + eapply Ch_trans; [apply Ch_set_phase|]. eapply Ch_trans; [exact C2|]. apply Ch_eq; reflexivity.
+      + rewrite (ph_eq s2) by reflexivity. exact P2.
+    - split.
+      + eapply Ch_trans; [|apply Ch_set_phase]. apply Ch_eq; reflexivity.
+      + apply ph_set_phase_same. rewrite (ph_eq s) by reflexivity. exact Hs.
+    - split.
+      + eapply Ch_trans; [|apply Ch_set_phase]. apply Ch_eq; reflexivity.
+      + apply ph_set_phase_same. rewrite (ph_eq s) by reflexivity. exact Hs.
+  Qed.
+
+  Definition gx_phase (p : option phase) : option phase :=
+    match p with Some PClosing => Some PGone | x => x end.
+
+  Lemma guard_cancel_eff s i :
+    Ch i s (guard_cancel s i) /\ ph (guard_cancel s i) i = gx_phase (ph s i).
+  Proof.
+    unfold guard_cancel. unfold ph at 2.
+    destruct (nth_error (calls s) i) as [k|] eqn:Hk; cbn [option_map];
+      [|split; [apply Ch_refl|unfold ph; rewrite Hk; reflexivity]].
+    assert (Hs : ph s i <> None) by (unfold ph; rewrite Hk; discriminate).
+    assert (Hsame : ph s i = Some (c_phase k)) by (unfold ph; rewrite Hk; reflexivity).
+    destruct (c_phase k) eqn:Hp; cbn [gx_phase]; try (split; [apply Ch_refl|exact Hsame]).
+    split.
+    - eapply Ch_trans; [apply (Ch_push_cancel i s (c_id k))|apply Ch_set_phase].
+    - apply ph_set_phase_same. rewrite (ph_eq s); [exact Hs|]. rewrite push_cancel_alt. reflexivity.
+  Qed.
+
+  (* guard_close preserves winv (needed between the two halves of DropCall) *)
 End Effects.
+
+(* ================================================================== the observer's view of the
+   call phases *)
+Section MRel.
+  Context {T : Type}.
+  Notation cstate := (@cstate T).
+  Implicit Types (s : cstate) (m : mst).
+
+  Record Mrel m s : Prop := {
+    mr_handles : m_handles m = handles s;
+    mr_len : length (m_calls m) = length (calls s);
+    mr_phase : forall i p, ph s i = Some p -> disc m i p;
+    mr_none : forall i, ph s i = None ->
+      mem_nat i (m_polled m) = false /\ mem_nat i (m_abandoned m) = false /\
+      mem_nat i (m_closing m) = false /\ done_idx m i = false }.
+
+  Lemma disc_pclass m i p p' : pclass p' = pclass p -> disc m i p -> disc m i p'.
+  Proof.
+    unfold pclass. intros [= E1 E2 E3 E4] [D1 D2 D3 D4].
+    constructor; rewrite ?E1, ?E2, ?E3, ?E4; assumption.
+  Qed.
+
+  Lemma ph_lt s i : ph s i <> None <-> (i < length (calls s))%nat.
+  Proof.
+    unfold ph. rewrite <- nth_error_Some. destruct (nth_error (calls s) i); cbn; split; congruence.
+  Qed.
+
+  Lemma Mrel_at m m' s s' i :
+    Mrel m s -> Ch i s s' -> m_handles m' = m_handles m -> m_calls m' = m_calls m ->
+    (forall j, j <> i ->
+       mem_nat j (m_polled m') = mem_nat j (m_polled m) /\
+       mem_nat j (m_abandoned m') = mem_nat j (m_abandoned m) /\
+       mem_nat j (m_closing m') = mem_nat j (m_closing m) /\ done_idx m' j = done_idx m j) ->
+    (forall p, ph s' i = Some p -> disc m' i p) ->
+    (ph s' i = None -> mem_nat i (m_polled m') = false /\ mem_nat i (m_abandoned m') = false /\
+                       mem_nat i (m_closing m') = false /\ done_idx m' i = false) ->
+    Mrel m' s'.
+  Proof.
+    intros [R1 R2 R3 R4] [C1 C2 C3] Eh Ec Ag Di Ni. constructor.
+    - congruence.
+    - congruence.
+    - intros j p Hj. destruct (Nat.eq_dec j i) as [->|Hne]; [apply Di, Hj|].
+      specialize (C3 j Hne). rewrite !nth_error_cls, Hj in C3. cbn in C3.
+      destruct (ph s j) as [p0|] eqn:Hp0; [|discriminate]. cbn in C3. injection C3 as C3.
+      pose proof (R3 j p0 Hp0) as D. apply (disc_pclass m' j p0 p C3).
+      destruct (Ag j Hne) as (A1 & A2 & A3 & A4). destruct D as [D1 D2 D3 D4].
+      constructor; rewrite ?A1, ?A2, ?A3, ?A4; assumption.
+    - intros j Hj. destruct (Nat.eq_dec j i) as [->|Hne]; [apply Ni, Hj|].
+      specialize (C3 j Hne). rewrite !nth_error_cls, Hj in C3. cbn in C3.
+      destruct (ph s j) as [p0|] eqn:Hp0; [discriminate|].
+      destruct (Ag j Hne) as (A1 & A2 & A3 & A4). rewrite A1, A2, A3, A4. apply R4, Hp0.
+  Qed.
+
+  Lemma Mrel_same m m' s s' :
+    Mrel m s -> handles s' = handles s -> cls s' = cls s ->
+    m_handles m' = m_handles m -> m_calls m' = m_calls m -> m_polled m' = m_polled m ->
+    m_abandoned m' = m_abandoned m -> m_closing m' = m_closing m -> m_done m' = m_done m ->
+    Mrel m' s'.
+  Proof.
+    intros R Eh Ec M1 M2 M3 M4 M5 M6.
+    apply (Mrel_at m m' s s' 0 R); try assumption.
+    - apply Ch_cls; assumption.
+    - intros j _. unfold done_idx. rewrite M3, M4, M5, M6. auto.
+    - intros p Hp. assert (Hp0 : ph s 0 = Some p \/ exists p0, ph s 0 = Some p0 /\ pclass p = pclass p0).
+      { pose proof (f_equal (fun l => nth_error l 0) Ec) as E. cbn beta in E.
+        rewrite !nth_error_cls, Hp in E. cbn in E. destruct (ph s 0) as [p0|]; [|discriminate].
+        right. exists p0. cbn in E. injection E as E. auto. }
+      destruct Hp0 as [Hp0|(p0 & Hp0 & Ep)].
+      + destruct (mr_phase _ _ R 0 p Hp0) as [D1 D2 D3 D4].
+        constructor; unfold done_idx; rewrite ?M3, ?M4, ?M5, ?M6; assumption.
+      + apply (disc_pclass m' 0 p0 p Ep). destruct (mr_phase _ _ R 0 p0 Hp0) as [D1 D2 D3 D4].
+        constructor; unfold done_idx; rewrite ?M3, ?M4, ?M5, ?M6; assumption.
+    - intro Hp. assert (Hp0 : ph s 0 = None).
+      { pose proof (f_equal (fun l => nth_error l 0) Ec) as E. cbn beta in E.
+        rewrite !nth_error_cls, Hp in E. cbn in E. destruct (ph s 0); [discriminate|reflexivity]. }
+      unfold done_idx. rewrite M3, M4, M5, M6. apply (mr_none _ _ R 0 Hp0).
+  Qed.
+
+  Lemma done_idx_snoc m m' i o j :
+    m_done m' = m_done m ++ [(i, o)] -> done_idx m' j = done_idx m j || Nat.eqb i j.
+  Proof.
+    intro E. unfold done_idx. rewrite E, existsb_app. cbn. rewrite orb_false_r. reflexivity.
+  Qed.
+
+  Lemma Nat_eqb_neq' i j : j <> i -> Nat.eqb j i = false /\ Nat.eqb i j = false.
+  Proof. intro H. split; apply Nat.eqb_neq; congruence. Qed.
+
+  (* ---------------------------------------------------------------- PollCall *)
+  Lemma Mrel_poll_call maxif m s i r s' :
+    Mrel m s -> poll_call s i = (r, s') ->
+    Mrel (snd (chk_obs (T := T) maxif (PollCall i) m
+                 (match r with CNothing => [] | _ => [OCall r] end))) s'.
+  Proof.
+    intros R H. destruct (poll_call_eff s i r s' H) as [C E].
+    set (cnd := mem_nat i (m_polled m) || mem_nat i (m_abandoned m) || mem_nat i (m_closing m)
+                || (length (m_calls m) <=? i)%nat).
+    set (pl := if cnd then m_polled m else m_polled m ++ [i]).
+    assert (Ag : forall j, j <> i -> mem_nat j pl = mem_nat j (m_polled m)).
+    { intros j Hne. unfold pl. destruct cnd; [reflexivity|].
+      rewrite mem_nat_app, mem_nat_single. destruct (Nat_eqb_neq' i j Hne) as [-> _].
+      apply orb_false_r. }
+    destruct (ph s i) as [p0|] eqn:Hp; unfold pc_eff in E.
+    - pose proof (mr_phase _ _ R i p0 Hp) as [D1 D2 D3 D4].
+      assert (Hi : (length (m_calls m) <=? i)%nat = false).
+      { apply Nat.leb_gt. rewrite (mr_len _ _ R). apply ph_lt. congruence. }
+      assert (Hpl : ph_polled p0 <> Some false -> mem_nat i pl = mem_nat i (m_polled m) \/ mem_nat i pl = true).
+      { intros _. unfold pl. destruct cnd; [left; reflexivity|right].
+        rewrite mem_nat_app, mem_nat_single, Nat.eqb_refl. apply orb_true_r. }
+      assert (Hnew : p0 = PNew -> mem_nat i pl = true).
+      { intros ->. unfold pl, cnd. rewrite (D1 false eq_refl), D2, D3, Hi. cbn.
+        rewrite mem_nat_app, mem_nat_single, Nat.eqb_refl. apply orb_true_r. }
+      assert (Hold : forall b, ph_polled p0 = Some b -> b = true -> mem_nat i pl = true).
+      { intros b Hb ->. unfold pl, cnd. rewrite (D1 true Hb). reflexivity. }
+      destruct r as [|o|].
+      + (* CPending *)
+        destruct E as [E0 E1]. unfold chk_obs. cbn [snd].
+        eapply (Mrel_at m _ s s' i R C); try reflexivity.
+        * intros j Hne. cbn [rec_op m_polled m_abandoned m_closing upd_m]. unfold done_idx.
+          cbn [m_done upd_m]. fold cnd. fold pl. rewrite (Ag j Hne). auto.
+        * intros p Hp'. assert (Pp : ph_polled p = Some true /\ ph_aband p = false /\
+                                       ph_closing p = false /\ ph_done p = false).
+          { destruct E1 as [E1|E1]; rewrite E1 in Hp'; injection Hp' as <-; cbn; auto. }
+          destruct Pp as (P1 & P2 & P3 & P4).
+          assert (Q : mem_nat i pl = true /\ ph_aband p0 = false /\ ph_closing p0 = false /\ ph_done p0 = false).
+          { destruct E0 as [-> |[-> |[-> | ->]]]; (split; [|cbn; auto]);
+              [apply Hnew; reflexivity|eapply Hold; reflexivity..]. }
+          destruct Q as (Q1 & Q2 & Q3 & Q4).
+          constructor; cbn [rec_op m_polled m_abandoned m_closing upd_m]; unfold done_idx;
+            cbn [m_done upd_m]; fold cnd; fold pl; fold (done_idx m i).
+          -- intros b Hb. rewrite P1 in Hb. injection Hb as <-. exact Q1.
+          -- rewrite P2, D2. exact Q2.
+          -- rewrite P3, D3. exact Q3.
+          -- rewrite P4, D4. exact Q4.
+        * intro Hn. destruct E1 as [E1|E1]; congruence.
+      + (* CDone *)
+        destruct E as [E0 E1]. unfold chk_obs. cbn [snd].
+        eapply (Mrel_at m _ s s' i R C); try reflexivity.
+        * intros j Hne. cbn [rec_op m_polled m_abandoned m_closing upd_m]. unfold done_idx.
+          cbn [m_done upd_m]. fold cnd. fold pl. rewrite (Ag j Hne), existsb_app. cbn [existsb fst].
+          destruct (Nat_eqb_neq' i j Hne) as [_ ->]. rewrite !orb_false_r. auto.
+        * intros p Hp'. rewrite E1 in Hp'. injection Hp' as <-.
+          assert (Q : mem_nat i pl = true /\ ph_aband p0 = false /\ ph_closing p0 = false).
+          { destruct E0 as [-> |[-> |[-> | ->]]]; (split; [|cbn; auto]);
+              [apply Hnew; reflexivity|eapply Hold; reflexivity..]. }
+          destruct Q as (Q1 & Q2 & Q3).
+          constructor; cbn [rec_op m_polled m_abandoned m_closing upd_m ph_polled ph_aband ph_closing ph_done];
+            unfold done_idx; cbn [m_done upd_m]; fold cnd; fold pl.
+          -- intros b [= <-]. exact Q1.
+          -- rewrite D2. exact Q2.
+          -- rewrite D3. exact Q3.
+          -- rewrite existsb_app. cbn [existsb fst]. rewrite Nat.eqb_refl. rewrite orb_true_r. reflexivity.
+        * intro Hn. congruence.
+      + (* CNothing *)
+        destruct E as [E0 E1]. unfold chk_obs. cbn [snd].
+        assert (Hc : cnd = true).
+        { unfold cnd. destruct E0 as [-> |[-> | ->]].
+          - rewrite D3. cbn. rewrite !orb_true_r. reflexivity.
+          - rewrite (D1 true eq_refl). reflexivity.
+          - rewrite D2. cbn. rewrite orb_true_r. reflexivity. }
+        eapply (Mrel_at m _ s s' i R C); try reflexivity.
+        * intros j Hne. cbn [rec_op m_polled m_abandoned m_closing upd_m]. unfold done_idx.
+          cbn [m_done upd_m]. fold cnd. fold pl. rewrite (Ag j Hne). auto.
+        * intros p Hp'. rewrite E1 in Hp'. injection Hp' as <-.
+          constructor; cbn [rec_op m_polled m_abandoned m_closing upd_m]; unfold done_idx;
+            cbn [m_done upd_m]; fold cnd; fold pl; fold (done_idx m i); unfold pl; rewrite Hc; assumption.
+        * intro Hn. congruence.
+    - destruct E as [-> E1]. unfold chk_obs. cbn [snd].
+      destruct (mr_none _ _ R i Hp) as (N1 & N2 & N3 & N4).
+      assert (Hc : cnd = true).
+      { unfold cnd. assert (X : (length (m_calls m) <=? i)%nat = true).
+        { apply Nat.leb_le. rewrite (mr_len _ _ R). apply Nat.nlt_ge. intro Hlt.
+          apply ph_lt in Hlt. congruence. }
+        rewrite X. rewrite !orb_true_r. reflexivity. }
+      eapply (Mrel_at m _ s s' i R C); try reflexivity.
+      + intros j Hne. cbn [rec_op m_polled m_abandoned m_closing upd_m]. unfold done_idx.
+        cbn [m_done upd_m]. fold cnd. fold pl. rewrite (Ag j Hne). auto.
+      + intros p Hp'. congruence.
+      + intros _. cbn [rec_op m_polled m_abandoned m_closing upd_m]. unfold done_idx.
+        cbn [m_done upd_m]. fold cnd. fold pl. fold (done_idx m i). unfold pl. rewrite Hc. auto.
+  Qed.
+End MRel.
